@@ -162,8 +162,8 @@ theorem will_reply_to {s : Server} (hg : Good s) (c : Nat) (x : Conn) (hx : s.co
         exact ⟨rfl, h1, hec, y, hy, hyo⟩
 
 /-- the same, read off the output of the close event -/
-theorem close_reply_to {s : Server} (hg : Good s) (c : Nat) (k : Cause) (res : List (Nat × Option Dest)) (f : Option Fatal)
-    (t d : Nat) (h : (step s (.close c k)).2 = .closed res f) (hm : (t, some (Dest.to d)) ∈ res) :
+theorem close_reply_to {s : Server} (hg : Good s) (c : Nat) (k : Cause) (res : List WillRes) (f : Option Fatal)
+    (r : WillRes) (d : Nat) (h : (step s (.close c k)).2 = .closed res f) (hm : r ∈ res) (hrd : r.reply = some (Dest.to d)) :
     ∃ x, s.conns[c]? = some x ∧ x.inited = true ∧ aget s.clients x.cid = some d ∧ d ≠ c ∧
       ∃ y, s.conns[d]? = some y ∧ y.closed = false := by
   unfold step at h
@@ -187,11 +187,11 @@ theorem close_reply_to {s : Server} (hg : Good s) (c : Nat) (k : Cause) (res : L
           rw [hres] at hm
           unfold drainK at hm
           cases hk : x.kind with
-          | text => simp only [hk] at hm; exact absurd hm (drainT_no_to _ _ _)
+          | text => simp only [hk] at hm; exact absurd hrd (drainT_no_to _ r d hm)
           | binary =>
             simp only [hk] at hm
-            obtain ⟨w, _, hw, _, hr⟩ := drain_to _ c x.wills t d hm
-            exact ⟨x, rfl, will_reply_to hg c x hx t d hr⟩
+            have hr := drain_to _ c x.wills r d hm hrd
+            exact ⟨x, rfl, will_reply_to hg c x hx r.tok d hr⟩
 
 /-! ### what close does to the engine -/
 theorem aget_putOwners_notin (m : List (Nat × Nat)) (c : Nat) (toks : List Nat) (tok : Nat) (h : tok ∉ toks) :
@@ -206,7 +206,7 @@ theorem aget_putOwners_notin (m : List (Nat × Nat)) (c : Nat) (toks : List Nat)
 /-- `Close` touches the engine only by submitting wills of the closing connection, a prefix of its queue in order (all of
 it unless `Close` dies), and leaves the issuer of every other pending token as it was -/
 theorem doClose_engine (s : Server) (c : Nat) (x : Conn) :
-    ∃ toks rest, (doClose s c x).1.engine = s.engine ++ toks.map (fun t => (c, t)) ∧
+    ∃ toks rest, (doClose s c x).1.willLog = s.willLog ++ toks.map (fun t => (c, t)) ∧
       x.wills.map (·.tok) = toks ++ rest ∧
       ((doClose s c x).2.2 = none → rest = []) ∧
       (∀ tok, tok ∉ toks → aget (doClose s c x).1.owner tok = aget s.owner tok) := by
@@ -226,7 +226,7 @@ theorem doClose_engine (s : Server) (c : Nat) (x : Conn) :
     exact ⟨_, rest, rfl, hr, (fun h => by simp at h), fun tok h => aget_putOwners_notin _ _ _ _ h⟩
 
 theorem stepClose_engine (s : Server) (c : Nat) :
-    ∃ toks, (stepClose s c).1.engine = s.engine ++ toks.map (fun t => (c, t)) ∧
+    ∃ toks, (stepClose s c).1.willLog = s.willLog ++ toks.map (fun t => (c, t)) ∧
       (∀ x, s.conns[c]? = some x → ∃ rest, x.wills.map (·.tok) = toks ++ rest) ∧
       (∀ tok, tok ∉ toks → aget (stepClose s c).1.owner tok = aget s.owner tok) := by
   unfold stepClose
@@ -241,9 +241,24 @@ theorem stepClose_engine (s : Server) (c : Nat) :
       · obtain ⟨toks, rest, h1, h2, _, h4⟩ := doClose_engine s c x
         exact ⟨toks, h1, fun x' hx' => by cases hx'; exact ⟨rest, h2⟩, h4⟩
 
+/-- in a reachable state `Close` handles every will of the queue, in order, each with the outcome `willOutcome` says —
+whatever the outcome of the earlier ones (the error `ProcessCommad` returns for a self-answered will is ignored) -/
+theorem doClose_outcomes {s : Server} (hg : Good s) {c : Nat} {x : Conn} (hx : s.conns[c]? = some x) (hk : x.kind = .binary) :
+    (doClose s c x).2.1 = x.wills.map (willOutcome (closeState s c x) c) := by
+  have ha := doClose_alive hg hx
+  have hdn : (drainK (closeState s c x) c x).2 = none := by
+    cases h2 : (drainK (closeState s c x) c x).2 with
+    | none => rfl
+    | some f => rw [doClose_some _ _ _ f h2] at ha; cases ha
+  rw [doClose_none _ _ _ hdn]
+  show (drainK (closeState s c x) c x).1 = _
+  unfold drainK at hdn ⊢
+  simp only [hk] at hdn ⊢
+  exact drain_nonfatal _ c x.wills hdn
+
 /-- in a reachable state `Close` submits the WHOLE will queue -/
 theorem doClose_all {s : Server} (hg : Good s) {c : Nat} {x : Conn} (hx : s.conns[c]? = some x) :
-    (doClose s c x).1.engine = s.engine ++ (x.wills.map (·.tok)).map (fun t => (c, t)) := by
+    (doClose s c x).1.willLog = s.willLog ++ (x.wills.map (·.tok)).map (fun t => (c, t)) := by
   obtain ⟨toks, rest, h1, h2, h3, _⟩ := doClose_engine s c x
   have := h3 (doClose_alive hg hx)
   subst this
